@@ -1,7 +1,7 @@
 #!/usr/bin/env python3
 """Build seeded/<name>/meta.json from the seed-check log (tools/seedcheck.sh output)."""
 import json, os, re, sys
-LOG = sys.argv[1]
+LOGS = sys.argv[1:]
 NEEDS = {
  "C01-decomp-pos-not-reset": ("C01", "a decoder that ignores max_length (zstd/deflate/copy/brotli/BCJ) and a solid folder in which one member leaves a remainder in the carry buffer, another is served wholly from it, and a later one crosses a 1 MiB read block"),
  "C01-names-size-astral": ("C01", "a member name containing a non-BMP character (the Names property size counts code points instead of UTF-16 units)"),
@@ -19,9 +19,25 @@ NEEDS = {
  "C12-testzip-reset-in-finally": ("C12", "extract/extractall followed by testzip() without reset()"),
  "C04-seq-multifolder-drops-skip-notarget": ("C04", "archive with >= 2 folders read through the sequential branch (stream or password), damage inside a packed stream, testzip()"),
  "C04-memio-exit-swallows": ("C04", "a damaged packed stream read through the writer-factory API (the CRC error is raised inside a with-block whose __exit__ returns a truthy value)"),
+ "C03-commonprefix-containment": ("C03", "a destination given, and a member (or link target) that lands in a SIBLING of the destination whose name begins with the destination's own name (dest vs dest_sib): containment tested by string prefix"),
+ "C03-link-gate-drops-parent": ("C03", "a symlink member d directories below the destination whose relative target climbs exactly d+1 levels (up -> ..), followed by a member whose name goes through that link"),
+ "C16-dotdot-test-on-joined-path": ("C16", "a name that climbs above the root and re-enters through components equal to the tail of the internal probe directory (../dafj08sajfa/x)"),
+ "C16-strip-one-separator": ("C16", "an arcname (or source path used as arcname) with two or more leading separators (//tmp/x): only one is stripped, the rest is still absolute"),
+ "C10-is-solid-first-folder-only": ("C10", "several folders of which the FIRST holds one stream while a LATER one holds more than one"),
+ "C10-needs-password-overwritten": ("C10", "an archive without any AES coder opened WITH a password: needs_password() must stay true"),
+ "C11-empty-password-not-encrypted": ("C11", "password is the EMPTY string and filters left at the default: the body is written unencrypted"),
+ "C11-iv-default-argument": ("C11", "two AES coders created in one interpreter process (IV drawn once, as a default argument evaluated at definition time)"),
+ "C14-lenient-fixed-reads": ("C14", "the process dies while the first bytes of a create session are written: a file of 6, 7 or 8 bytes opens as an empty archive"),
+ "C14-skeleton-seeks-over-fields": ("C14", "a create session on a file object that still holds an older, longer valid archive: the old start header is never invalidated"),
+ "C05-stall-rule-needs-fp-before-end": ("C05", "packed stream completely present and consumed while the header declares more output than it yields, coder that answers b'' at end of input"),
+ "C05-lzma1-drops-max-length": ("C05", "a folder (or encoded header) using LZMA1 whose packed stream expands to far more than the header declares"),
+ "C17-write-uint64-byte-count": ("C17", "a value of bit length 56 (2^55 <= v < 2^56): the NUMBER writer raises ValueError"),
+ "C17-names-size-astral": ("C17", "a member name with an astral-plane character: the Names property size is 2 bytes short per such character"),
+ "C19-dunits-without-b": ("C19", "a volume size with a 'b'/'B' suffix, which the validation pattern accepts"),
+ "C19-seq-multifolder-testzip-skips": ("C19", ">= 2 folders, archive opened from a file object (as the CLI does), damaged packed data: 't' exits 0"),
 }
 res = {}
-for line in open(LOG):
+for line in [l for f in LOGS for l in open(f)]:
     m = re.match(r"\[([^\]]+)\] demo with mutation: exit (\d+) ; tests: rc=(\S+) \((.*?)\) ; demo clean: exit (\d+)", line)
     if m:
         res.setdefault(m.group(1), {})["confirm"] = dict(demo_with_change_exit=int(m.group(2)), tests_rc=m.group(3), tests_summary=m.group(4), demo_clean_exit=int(m.group(5)))
